@@ -178,6 +178,13 @@ pub fn addr_bytes(a: &Address) -> [u8; 32] {
     }
 }
 
+/// The account address (`G...`) that carries the same 32 bytes as this contract address (`C...`):
+/// a different address, identical under any key that drops the address kind.
+pub fn account_twin(env: &Env, a: &Address) -> Address {
+    let sc = ScVal::Address(ScAddress::Account(xdr::AccountId(xdr::PublicKey::PublicKeyTypeEd25519(xdr::Uint256(addr_bytes(a))))));
+    Address::try_from_val(env, &sc).unwrap()
+}
+
 impl Sim {
     pub fn new(ts: u64, seq: u32) -> Sim {
         let env = Env::new_with_config(EnvTestConfig {
@@ -246,7 +253,8 @@ impl Sim {
         let mut out = Vec::with_capacity(entries.len());
         for e in entries {
             let b = addr_bytes(&e.who);
-            if self.mocked.insert(b) {
+            let is_contract = matches!(ScAddress::try_from(&e.who), Ok(ScAddress::Contract(_)));
+            if is_contract && self.mocked.insert(b) {
                 self.env.register_at(&e.who, MockAuthContract, ());
             }
             self.nonce += 1;
